@@ -90,6 +90,14 @@ def frame_library(gen: int, rng: random.Random, n_unknown: int = 6) -> list[byte
         t = rng.choice([x for x in range(256) if x not in registered])
         payload = bytes(rng.randrange(256) for _ in range(rng.choice([0, 1, 2, 5, 9, 17, 40])))
         frames.append(sockrun.build_frame(gen, 0xB0, 0x80, 0, t, payload))
+    if gen == 5:
+        # status messages whose records are longer than the known layout (announced in the sub-header), twice:
+        # the second must be read like the first
+        for sub, rec in [(0x23, bytes.fromhex("10120078c0020000" "0000")), (0x21, bytes.fromhex("4080968002e70000"))]:
+            for pad in (2, 4):
+                rl = len(rec) + pad
+                body = bytes([sub, 0, 0, 0, rl >> 8, rl & 255, 0, 2]) + (rec + bytes([0xA5] * pad)) * 2
+                frames.append(sockrun.build_frame(5, 0xB0, 0x80, 0, 0xC0, body))
     # address bytes are data like any other (frames addressed to another client, addresses that happen to equal the
     # prefix bytes 0x55 / 0xAA): the socket delivers them all, the API classes do the filtering
     base = sockrun.rx_catalogue(gen)
